@@ -16,6 +16,7 @@ import CoapVerif.Driver.Codec
 -- DRIVER-OPS: findctx => Coap.Driver.Oscore.findctxStep
 -- DRIVER-OPS: oinj => Coap.Driver.Oscore.oinjStep
 -- DRIVER-OPS: oscx => Coap.Driver.Oscore.oscxStep
+-- DRIVER-OPS: oend => Coap.Driver.Oscore.oendStep
 -- DRIVER-OPS: optenc => Coap.Driver.Oscore.optencStep
 -- DRIVER-OPS: optdec => Coap.Driver.Oscore.optdecStep
 -- DRIVER-OPS: aad => Coap.Driver.Oscore.aadStep
@@ -535,6 +536,156 @@ def oscxStep (w : List String) : String :=
       | none => "bad-input"
     | _, _ => "bad-input"
   | _ => "bad-op"
+
+/-! ### `oend`: two endpoints that are each client AND server on ONE session (fix 48ee5dc, `is_client`).
+S: Spec/OscoreSeq.lean with a client store and a server store per endpoint (token spaces per direction, D14.20).
+M: Model/OscoreSrv.lean — ONE table per endpoint (`srvRequest`, `srvDecrypt`, `srvResponseAssoc`, `srvProtect`, `srvRespIn`);
+the transcript "L" is what libcoap produces when that table decides (RFC 8613 functions of S as the AEAD / codec oracle). -/
+
+structure EndW where
+  seq : Nat
+  cst : Store                 -- S: bindings of the requests this endpoint sent
+  sst : Store                 -- S: bindings of the requests it received
+  mseq : Nat
+  mt : M.Oscore.Srv           -- M: session->recipient_ctx, session->associations
+
+structure EndSt where
+  e0 : EndW
+  e1 : EndW
+  outS : String
+  outL : String
+  tr : String
+
+def EndSt.get (st : EndSt) (e : Nat) : EndW := if e = 0 then st.e0 else st.e1
+def EndSt.set (st : EndSt) (e : Nat) (w : EndW) : EndSt := if e = 0 then { st with e0 := w } else { st with e1 := w }
+
+def showEAssoc (a : Option M.Oscore.SAssoc) : String :=
+  match a with
+  | none => "none"
+  | some a => hexOrDash a.piv ++ "," ++ hexOrDash a.nonce ++ "," ++ hexOrDash a.aad ++ "," ++ (if a.isObserve then "1" else "0") ++
+      "," ++ (if a.isClient then "1" else "0")
+
+def isOk (v : Verdict) : Bool := match v with | .ok _ _ => true | _ => false
+
+def oendSteps (c0 c1 : Ctx) (newmid : Option Nat) : (fuel : Nat) → EndSt → List String → EndSt
+  | 0, st, _ => st
+  | _, st, [] => st
+  | fuel + 1, st, "q" :: es :: req :: how :: rest =>
+    match (bytesOfHex req).bind (Spec.decode .udp) with
+    | none => { st with outS := st.outS ++ " req=bad-input", outL := st.outL ++ " req=bad-input" }
+    | some rm =>
+      let e := if es = "0" then 0 else 1
+      let ce := if e = 0 then c0 else c1
+      let cp := if e = 0 then c1 else c0
+      -- S
+      let stS :=
+        let w := st.get e
+        match clientSend aes128 ce w.cst rm w.seq with
+        | none => { st with outS := st.outS ++ " req=fail" }
+        | some (pm, cst') =>
+          let dg := encodeUdp pm
+          let st1 := { (st.set e { w with seq := w.seq + 1, cst := cst' }) with outS := st.outS ++ " req=" ++ hexOrDash dg }
+          if how.startsWith "d" then
+            let p := st1.get (1 - e)
+            let (v, sst') := serverRecv aes128 cp p.sst pm
+            { (st1.set (1 - e) { p with sst := sst' }) with outS := st1.outS ++ " ureq=" ++ showVerdict v }
+          else st1
+      -- M / L
+      let w := stS.get e
+      let stM :=
+        match protectRequest aes128 ce rm w.mseq with
+        | none => { stS with outL := stS.outL ++ " req=fail", tr := stS.tr ++ " q:" ++ showEAssoc (M.Oscore.findSAssoc w.mt.as rm.token) }
+        | some (pm, _) =>
+          let dg := encodeUdp pm
+          let piv := pivBytes w.mseq
+          let obsVal := match rm.opts.filter (fun o => o.1 = optObserve) |>.getLast? with
+            | some o => uintVal o.2
+            | none => 0
+          let aad := M.Oscore.prepareAad (M.Oscore.prepareEAad ce.alg ce.sid piv)
+          match M.Oscore.generateNonce ce.commonIV ce.sid piv with
+          | .ok n =>
+            let mt' := M.Oscore.srvRequest w.mt rm.token (w.mt.rcp.getD (0, 0)) aad n piv (hasObserve rm.opts) obsVal
+            let st1 := { (stS.set e { w with mseq := w.mseq + 1, mt := mt' }) with
+                           outL := stS.outL ++ " req=" ++ hexOrDash dg,
+                           tr := stS.tr ++ " q:" ++ showEAssoc (M.Oscore.findSAssoc mt'.as rm.token) }
+            if how.startsWith "d" then
+              let p := st1.get (1 - e)
+              let v := unprotectRequest aes128 cp pm
+              let obs := match v with | .ok m _ => hasObserve m.opts | _ => false
+              let aadR := M.Oscore.prepareAad (M.Oscore.prepareEAad cp.alg cp.rid piv)
+              let nR := match M.Oscore.generateNonce cp.commonIV cp.rid piv with | .ok x => x | _ => []
+              let mtp := M.Oscore.srvDecrypt p.mt rm.token (0, 0) aadR nR piv (isOk v) obs
+              { (st1.set (1 - e) { p with mt := mtp }) with
+                  outL := st1.outL ++ " ureq=" ++ showVerdict v,
+                  tr := st1.tr ++ " u:" ++ showEAssoc (M.Oscore.findSAssoc mtp.as rm.token) }
+            else st1
+          | _ => { stS with outL := stS.outL ++ " req=oob" }
+      oendSteps c0 c1 newmid fuel stM rest
+  | fuel + 1, st, "r" :: es :: resp :: f :: how :: rest =>
+    match (bytesOfHex resp).bind (Spec.decode .udp) with
+    | none => { st with outS := st.outS ++ " resp=bad-input", outL := st.outL ++ " resp=bad-input" }
+    | some rm =>
+      let e := if es = "0" then 0 else 1
+      let ce := if e = 0 then c0 else c1
+      let cp := if e = 0 then c1 else c0
+      let ask := f = "1"
+      -- S
+      let stS :=
+        let w := st.get e
+        let fresh := serverOwnPiv w.sst rm ask
+        match serverSend aes128 ce w.sst rm ask w.seq newmid with
+        | none => { st with outS := st.outS ++ " resp=fail" }
+        | some (pm, sst') =>
+          let dg := encodeUdp pm
+          let st1 := { (st.set e { w with seq := if fresh then w.seq + 1 else w.seq, sst := sst' }) with
+                         outS := st.outS ++ " resp=" ++ hexOrDash dg }
+          if how.startsWith "d" then
+            let p := st1.get (1 - e)
+            let (v, cst') := clientRecv aes128 cp p.cst pm
+            { (st1.set (1 - e) { p with cst := cst' }) with outS := st1.outS ++ " uresp=" ++ showVerdict v }
+          else st1
+      -- M / L
+      let w := stS.get e
+      let failM : EndSt := { stS with outL := stS.outL ++ " resp=fail",
+                                      tr := stS.tr ++ " p:" ++ showEAssoc (M.Oscore.findSAssoc w.mt.as rm.token) }
+      let stM :=
+        match M.Oscore.srvResponseAssoc w.mt rm.token with
+        | none => failM
+        | some a =>
+          let own := (M.Oscore.srvOwnPiv w.mt rm.token (hasObserve rm.opts) ask).getD false
+          match protectResponse aes128 ce ⟨ce.rid, a.piv, a.nonce⟩ rm (if own then some w.mseq else none) newmid with
+          | none => failM
+          | some pm =>
+            let dg := encodeUdp pm
+            let mt' := M.Oscore.srvProtect w.mt rm.token
+            let st1 := { (stS.set e { w with mseq := if own then w.mseq + 1 else w.mseq, mt := mt' }) with
+                           outL := stS.outL ++ " resp=" ++ hexOrDash dg,
+                           tr := stS.tr ++ " p:" ++ showEAssoc (M.Oscore.findSAssoc mt'.as rm.token) }
+            if how.startsWith "d" then
+              let p := st1.get (1 - e)
+              let v := match M.Oscore.findSAssoc p.mt.as rm.token with
+                | none => unprotectResponse aes128 cp none pm
+                | some a' => unprotectResponse aes128 cp (some ⟨cp.sid, a'.piv, a'.nonce⟩) pm
+              let mtp := M.Oscore.srvRespIn p.mt rm.token (isOk v)
+              { (st1.set (1 - e) { p with mt := mtp }) with
+                  outL := st1.outL ++ " uresp=" ++ showVerdict v,
+                  tr := st1.tr ++ " d:" ++ showEAssoc (M.Oscore.findSAssoc mtp.as rm.token) }
+            else st1
+      oendSteps c0 c1 newmid fuel stM rest
+  | _, st, _ => { st with outS := st.outS ++ " bad-step", outL := st.outL ++ " bad-step" }
+
+/-- `oend <E0: 5> <E1: 5> <seq0> <seq1> <newmid|-1> { q <e> <req> <d|l> | r <e> <resp> <piv 0|1> <d|l> }*` -/
+def oendStep (w : List String) : String :=
+  match paramsOf (w.take 5), paramsOf ((w.drop 5).take 5), w.drop 10 with
+  | some p0, some p1, seq0 :: seq1 :: newmid :: steps =>
+    match seq0.toNat?, seq1.toNat? with
+    | some seq0, some seq1 =>
+      let st := oendSteps (derive p0) (derive p1) (sepMidOf newmid) (steps.length + 1)
+        ⟨⟨seq0, [], [], seq0, ⟨some (0, 0), []⟩⟩, ⟨seq1, [], [], seq1, ⟨some (0, 0), []⟩⟩, "", "", ""⟩ steps
+      "M" ++ st.outL ++ " ;" ++ st.tr ++ " | S end" ++ st.outS
+    | _, _ => "bad-input"
+  | _, _, _ => "bad-op"
+
 
 def fnv (s : String) : UInt32 :=
   s.toUTF8.toList.foldl (fun h b => (h ^^^ b.toUInt32) * 16777619) 2166136261
